@@ -107,9 +107,11 @@ def run_order(binary, cases, nshards=None):
 def shrink(binary, c, what):
     cur = dict(c)
 
+    cat = str(what).split(":")[0]
+
     def bad(x):
         r = run_order(binary, [x], nshards=1)[0]
-        return r.get("verdict") in ("diff", "panic") and r.get("errors", 0) == 0
+        return (r.get("verdict") == "diff" and r.get("errors", 1) == 0 and str(r.get("what", "")).split(":")[0] == cat)
 
     # two orders are enough
     r = run_order(binary, [cur], nshards=1)[0]
@@ -163,13 +165,15 @@ def snapshot(root):
 
 
 def sv_blocks(text):
-    """top-level blocks of an emitted file, sorted (same rule as the harness)"""
+    """top-level blocks of an emitted file, sorted; comment and blank lines dropped (same rule as the harness)"""
     if text is None:
         return None
     out, cur = [], ""
     for line in text.splitlines():
-        cur += line + "\n"
         t = line.lstrip()
+        if not t or t.startswith("//"):
+            continue
+        cur += line + "\n"
         if t.startswith("endmodule") or t.startswith("endpackage") or t.startswith("endinterface"):
             out.append(cur)
             cur = ""
@@ -230,7 +234,9 @@ def cli_part(res, rng, tier, veryl):
                 texts = {}
                 for i, nm in enumerate(names):
                     sv = os.path.join(root, "target", nm.replace(".veryl", ".sv"))
-                    texts[i] = open(sv, encoding="utf8").read() if os.path.exists(sv) else None
+                    # the trailing `//# sourceMappingURL=...` line names the (renamed) file itself
+                    texts[i] = ("\n".join(l for l in open(sv, encoding="utf8").read().split("\n")
+                                          if not l.startswith("//# sourceMappingURL=")) if os.path.exists(sv) else None)
                 outs.append((rc, texts))
                 res.count("cli_builds", 1)
             if outs[0] != outs[1]:
@@ -332,6 +338,10 @@ def run(tier, seed, replay):
     res.coverage["projects_with_errors(not judged)"] = n_err
     res.coverage["distinct_nontrivial"] = n_same
     res.coverage["rule"] = "error-free generated multi-file projects (>= 2 files with cross-file references) whose every tried order gave identical outputs"
+    # only error-free projects are judged (the property's hypothesis)
+    n_not_judged = len([b for b in bad if b[1].get("errors", 0) != 0])
+    bad = [b for b in bad if b[1].get("errors", 0) == 0]
+    res.coverage["projects_with_errors(not judged)"] = n_err + n_not_judged
     new_bad = [b for b in bad if not (str(b[1].get("what", "")).startswith("known:")
                                       and "order:" + str(b[1].get("what"))[len("known:"):] in res.known)]
     res.coverage["projects_differing_only_by_a_listed_known_finding"] = n_known
@@ -374,7 +384,13 @@ def run(tier, seed, replay):
         res.violation(key, "outputs of an error-free project depend on the processing order / run: %s %s" % (what, json.dumps(r2.get("detail"))[:200]),
                       {"case": inline_files(small), "result": r2})
 
-    # the real CLI
+    # the real CLI (VERIF_C24_SKIP_CLI=1: development aid for seeded-change experiments in a scratch
+    # worktree, where building the whole CLI takes hours on a shared machine; never set by a registered command)
+    if os.environ.get("VERIF_C24_SKIP_CLI") and C.ALT:
+        res.notes.append("CLI part skipped (VERIF_C24_SKIP_CLI)")
+        if not proved and not res.violations:
+            res.violation("proof", "Props/C24.v is no longer established", {"no_longer_checks": "theorems of Props/C24.v"}, no_input=True)
+        return res.finish()
     okc, bins, logc = C.cli_build()
     res.obligation("CLI build from /repo working tree", okc, logc[-300:])
     if okc:
